@@ -94,7 +94,14 @@ class SimFile(object):
         if not self._wbuf:
             return
         self._os._ev("write", "%s@%d+%d" % (self.name, self._wstart, len(self._wbuf)))
-        self._os._maybe_fail("write", self.name)
+        try:
+            self._os._maybe_fail("write", self.name)
+        except OSError as e:
+            n = getattr(e, "short", 0)
+            if n:
+                # a short write: the first n bytes reached the file before the error (ENOSPC)
+                self._apply(bytes(self._wbuf[:n]))
+            raise
         self._apply(bytes(self._wbuf))
         self._wbuf = bytearray()
 
@@ -639,6 +646,7 @@ class _OsFacade(object):
         s = self._os
         path = s._norm(path)
         s._ev("unlink", path)
+        s._maybe_fail("unlink", path)
         parent, name = s._parent(path)
         ino = parent.entries.get(name)
         if ino is None:
@@ -654,6 +662,7 @@ class _OsFacade(object):
         src = s._norm(src)
         dst = s._norm(dst)
         s._ev("rename", "%s>%s" % (src, dst))
+        s._maybe_fail("rename", dst)
         sp, sn = s._parent(src)
         ino = sp.entries.get(sn)
         if ino is None:
